@@ -28,6 +28,8 @@ static void run_case(CaseCtx& c)
         go.nth_min = go.nth_max = want_chain ? 8 : 4;
     }
     go.Rmax   = rng.pick({1.0, 1.3, 2.0});
+    if (rng.coin(0.06))
+        go.R0 = rng.pick({1e-10, 1e-12, 1e-14}); // any R0 > 0 is admissible: |det DF| ~ R0 on the innermost circle
     GridSpec gs = gen_grid(rng, go);
     ProblemSpec ps = random_problem(rng, go.Rmax, true);
     maybe_mirror(rng, ps);
@@ -96,6 +98,24 @@ static void run_case(CaseCtx& c)
             rt.computeResidual(r, f, u);
             res.push_back(r);
             names.push_back("take");
+        }
+        // the operator a Level owns (what the solver uses): initialised for the other boundary mode first, then for this one --
+        // the second initialisation must win; result compared bit for bit with the directly constructed operator
+        {
+            const bool use_take = rng.coin(0.4);
+            const int cc = use_take ? 3 : rng.range(0, 3);
+            Level& L = *H[cc].levels[d];
+            const auto method = use_take ? StencilDistributionMethod::CPU_TAKE : StencilDistributionMethod::CPU_GIVE;
+            if (rng.coin(0.7))
+                L.initializeResidual(*po.geo, *po.prof, !dirbc, rng.pick({1, threads}), method);
+            L.initializeResidual(*po.geo, *po.prof, dirbc, threads, method);
+            Vector<double> r(n);
+            L.computeResidual(r, f, u);
+            const Vector<double>& direct = use_take ? res[4] : res[cc];
+            bool same = true;
+            for (int k = 0; k < n; k++)
+                same = same && std::memcmp(&r[k], &direct[k], sizeof(double)) == 0;
+            c.obs.require("level_operator_equals_direct_operator", same, std::string(use_take ? "take" : "give") + "/" + lvl);
         }
         // compare each with the reference; scale = |A||u| + |f|
         for (size_t k = 0; k < res.size(); k++) {
